@@ -140,6 +140,27 @@ def bodyOf (cfg : NodeCfg) (b : BodySpec) (n : Node) (kw : Kwargs) (inv att : Na
     else if b.kind == "labelhash" then .ret ((b.seq[(fnv1a64 (kwStr kw)).toNat % (max b.seq.length 1)]?).getD .none)
     else .ret b.const
 
+/-- the program of a parsed spec: graph, per-node configuration and behaviour (the pure part of `parseProgram`;
+`Proofs/DriverBody.lean` proves the value hypotheses of the fragment theorems about it) -/
+def mkProgram (g : Graph) (cfgs : List (NodeCfg × BodySpec)) (ik : Kwargs) (poolsOk : Bool)
+    (cb : Cb → Node → Nat) (cr : Cb → Node → Option Exc) : Program :=
+  let cfgOf : Node → NodeCfg := fun n => (cfgs[n]?.map (·.1)).getD {}
+  let bsOf : Node → BodySpec := fun n => (cfgs[n]?.map (·.2)).getD {}
+  { g := g, cfg := cfgOf, body := fun n kw inv att => bodyOf (cfgOf n) (bsOf n) n kw inv att,
+    dflt := fun n kw => .str (prov ((cfgOf n).name ++ ".default") kw), inputKw := ik,
+    poolsOk := poolsOk, cbYield := cb, cbRaise := cr,
+    dfltRaise := fun n => (bsOf n).dfltRaise.map (dfltExc n) }
+
+/-- no node of the spec is a recurrent destination (so no body returns a `Recurrent` marker) -/
+def noRecDest (cfgs : List (NodeCfg × BodySpec)) : Bool := cfgs.all fun c => !c.2.isRec
+
+/-- the spec has no recurrent destination: with `Proofs/DriverBody.lean` (`mkProgram_values`) the value hypotheses `noRecur` /
+`noRecurD` of the fragment theorems hold of the parsed program -/
+def specNoRecDest (j : Json) : Bool :=
+  match j.getObjVal? "spec" with
+  | .ok sj => noRecDest ((getArr sj "nodes").toList.map parseCfg)
+  | .error _ => false
+
 def parseProgram (j : Json) : Except String Program := do
   let gj ← j.getObjVal? "graph"
   let sj ← j.getObjVal? "spec"
@@ -164,8 +185,6 @@ def parseProgram (j : Json) : Except String Program := do
     attr := fun n => ((attrs.find? (·.1 == n)).map (·.2)).getD {},
     input := (getNat? gj "input").getD 0, output := (getNat? gj "output").getD 0,
     order := (getArr gj "order").toList.filterMap fun x => x.getNat?.toOption }
-  let cfgOf : Node → NodeCfg := fun n => (cfgs[n]?.map (·.1)).getD {}
-  let bsOf : Node → BodySpec := fun n => (cfgs[n]?.map (·.2)).getD {}
   -- collaborator suspension plan: spec.cb = {"nstart": {"3": 1}, "ncomplete": {...}, "save": {...}, "pstart": k, "pcomplete": k}
   let cbj := (sj.getObjVal? "cb").toOption.getD (Json.mkObj [])
   let perNode (key : String) (n : Node) : Nat :=
@@ -196,10 +215,7 @@ def parseProgram (j : Json) : Except String Program := do
     | .save => raiseNode "save" n
     | .pstart => raiseTop "pstart"
     | .pcomplete => raiseTop "pcomplete"
-  return { g := g, cfg := cfgOf, body := fun n kw inv att => bodyOf (cfgOf n) (bsOf n) n kw inv att,
-           dflt := fun n kw => .str (prov ((cfgOf n).name ++ ".default") kw), inputKw := ik,
-           poolsOk := !(getBoolD j "pools_missing"), cbYield := cb, cbRaise := cr,
-           dfltRaise := fun n => (bsOf n).dfltRaise.map (dfltExc n) }
+  return mkProgram g cfgs ik (!(getBoolD j "pools_missing")) cb cr
 
 /-! ### lock-step -/
 
@@ -314,7 +330,9 @@ def semLine (_ : Unit) (line : String) : Unit × String :=
     -- hypotheses of the plain-fragment theorems, evaluated on this program; and: `Sem` solves the dataflow equations
     let dref := reducedRef P init P.g.input P.g.output false false false
     -- every `get_default` returns (`dfltOk` of PlainP / OneP): a program with a failing default is outside the fragments
-    let dfltOk : Bool := P.g.nodes.all fun n => (P.dfltRaise n).isNone
+    let dfltOk : Bool := (P.g.nodes.all fun n => (P.dfltRaise n).isNone) &&
+      -- … and no body returns a marker or an exception object as its value (`noRecur`, by `mkProgram_values`)
+      (match Json.parse line with | .ok j => specNoRecDest j | .error _ => false)
     let plainHyp : Bool := dfltOk && match dref with
       | some d => plainCheck P d && plainAttrsB P && feedsOutputB P d
       | none => false
